@@ -156,4 +156,25 @@ theorem mappingEntry_diag (i s : Nat) :
       · have := (getBit_ne_zero s i).1 g; rw [hi'] at this; cases this
     simp [g, hi']
 
+/-- the target of a table entry is the source with bit `j` cleared and bit `i` set -/
+theorem mappingEntry_target (i j t : Nat) (x : Nat × Nat × Bool) (hx : mappingEntry i j t = some x) :
+    x.2.1 = Fock.flip (Fock.flip t j) i := by
+  by_cases hij : i = j
+  · subst hij
+    rw [Fock.flip_flip]
+    unfold mappingEntry at hx
+    split at hx
+    · rename_i hc; exact absurd hc.2 hc.1
+    · split at hx
+      · cases hx; rfl
+      · cases hx
+  · rw [mappingEntry_spec i j t hij] at hx
+    unfold ladder2 ladder at hx
+    by_cases a : t.testBit j = false
+    · simp [a] at hx
+    · by_cases b : (Fock.flip t j).testBit i = true
+      · simp [a, b] at hx
+      · simp [a, b] at hx
+        rw [← hx]
+
 end Model
